@@ -10,7 +10,7 @@ DEMO=$(ls OUT/$K/*.rs 2>/dev/null | head -1)
 [ -n "$DEMO" ] || { echo "NOT-CONFIRMED no demo .rs in OUT/$K"; exit 1; }
 NAME=$(basename "$DEMO" .rs)
 # the sub-agent may have prescribed a file name (type paths contain the test crate name)
-WANT=$(grep -ohE "tests/[a-z0-9_]+\.rs" OUT/$K/notes.md "$DEMO" 2>/dev/null | head -1 | sed 's|tests/||; s|\.rs||')
+WANT=$(grep -ohE "tests/[a-z0-9_]+\.rs" OUT/$K/notes.md "$DEMO" 2>/dev/null | grep -vE "tests/(utils|mod|lib|main)\.rs" | head -1 | sed 's|tests/||; s|\.rs||')
 [ -n "$WANT" ] && NAME="$WANT"
 PKG=scale-typegen; [ "$CR" = description ] && PKG=scale-typegen-description
 mkdir -p $CR/tests && cp "$DEMO" $CR/tests/$NAME.rs
